@@ -1,7 +1,7 @@
 ----------------------------- MODULE MC_Signing -----------------------------
 (***************************************************************************)
-(* C19 on the symbolic model: for 2 keys, all contracts of <= 2 predicates *)
-(* (out of 3) and 2 salts, all orders:                                     *)
+(* C19 on the symbolic model: for 2 keys, all contracts of <= MaxPreds     *)
+(* predicates (out of 3; quick 2, thorough 4) and 2 salts, all orders:     *)
 (*   SignRecover     recover(sign(c, sk)) = Pk(sk) and verification        *)
 (*                   succeeds, whatever the predicate order                *)
 (*   TamperDetected  after any change to the predicates or the salt the    *)
@@ -9,10 +9,11 @@
 (*   MalformedIsError a malformed signature is an error                    *)
 (***************************************************************************)
 EXTENDS Signing, TLC
+CONSTANT MaxPreds
 Keys == {"a", "b"}
 PredSet == {"p1", "p2", "p3"}
 Salts == {0, 1}
-Contracts == [preds : UNION {[1..n -> PredSet] : n \in 0..2}, salt : Salts]
+Contracts == [preds : UNION {[1..n -> PredSet] : n \in 0..MaxPreds}, salt : Salts]
 VARIABLES c, sk
 Init == c \in Contracts /\ sk \in Keys
 Next == UNCHANGED <<c, sk>>
